@@ -814,21 +814,21 @@ def double_column(tokens):
         )
 
     val = tokens[0]
-    val = '"' + val[1:-1].replace('""', '\\"') + '"'
+    val = '"""' + val[1:-1].replace('""', '\\"') + '"""'
     un = literal_field(ast.literal_eval(val))
     return un
 
 
 def backtick_column(tokens):
     val = tokens[0]
-    val = '"' + val[1:-1].replace("``", "`").replace('"', '\\"') + '"'
+    val = '"""' + val[1:-1].replace("``", "`").replace('"', '\\"') + '"""'
     un = literal_field(ast.literal_eval(val))
     return un
 
 
 def square_column(tokens):
     val = tokens[0]
-    val = '"' + val[1:-1].replace("]]", "]").replace('"', '\\"') + '"'
+    val = '"""' + val[1:-1].replace("]]", "]").replace('"', '\\"') + '"""'
     un = literal_field(ast.literal_eval(val))
     return un
 
